@@ -270,7 +270,19 @@ def run(ck):
         shared.append({'kind': 'shared', 'cfg': ca, 'edit': edit, 't0': L.fhex(t0), 'Tend': L.fhex(t0 + 2 * ca['P'] * ca['dt']),
                        'scale': rng.choice([1.0, 0.5]), 'reset_hook_list': pi_ >= 7 and pi_ % 3 == 0})
 
-    jobs = cases + inters + [a[2] for a in alone] + shared + [pk_alone, pk_inter]
+    # space-transfer matrices of multi-level controllers: order 8 (scipy BarycentricInterpolator permutes its nodes with an
+    # unseeded generator) and a low-order control, 4 fresh controllers each + the helper called directly
+    def ml_cfg(order):
+        c = L.gen_config(rng, fixed_step=True, allow_random=False, family=rng.choice(['ml_heat', 'ml_adv', 'ml_imex']))
+        per = c['bc'] == 'periodic'
+        c.update(nvars=[64, 32] if per else [63, 31], iorder=order, rorder=order, ccs=[], hooks=['LogSolution'], guess='spread', P=rng.choice([1, 2]),
+                 maxiter=2, restol=-1.0, nsweeps=1, fixed_step=True)
+        return c
+    transfer = {'kind': 'transfer', 'cfgs': [ml_cfg(8), ml_cfg(rng.choice([2, 4]))], 'nfresh': 4, 'scale': 1.0, 't0': L.fhex(rng.choice(L.T0S)), 'nsteps': 2,
+                'helper': [{'nfine': 63, 'k': 8, 'periodic': False, 'equidist_nested': True}, {'nfine': 64, 'k': 8, 'periodic': True, 'equidist_nested': rng.choice([True, False])},
+                           {'nfine': 63, 'k': rng.choice([2, 4, 6]), 'periodic': False, 'equidist_nested': True}]}
+
+    jobs = cases + inters + [a[2] for a in alone] + shared + [transfer] + [pk_alone, pk_inter]
     ck.log('running %d scenario processes (%d cases, %d interleavings, %d shared-dict pairs)' % (len(jobs), len(cases), len(inters), len(shared)))
     with cf.ThreadPoolExecutor(14) as ex:
         results = list(ex.map(lambda j: work(j, 300 if thorough else 120), jobs))
@@ -279,6 +291,7 @@ def run(ck):
     res_alone = results[len(cases) + len(inters):len(cases) + len(inters) + len(alone)]
     res_shared = results[len(cases) + len(inters) + len(alone):len(cases) + len(inters) + len(alone) + len(shared)]
     res_pk = results[-2:]
+    res_transfer = results[-3]
     ck.log('scenarios done')
 
     for sc, r in zip(jobs, results):
@@ -495,6 +508,49 @@ def run(ck):
                    {'kind': 'shared-dicts', 'edit': sc['edit'][0]}, {'input': inp, 'diff': describe_diff(bs, bf), 'hooks_shared': r['B_shared_hooks'],
                                                                       'hooks_fresh': r['B_fresh_hooks'], 'do_coll_update_fresh_shared': r.get('do_coll_update')})
     ck.cov['shared_dict_pairs'] = nshared
+
+    # ------------------------------------------------------------------ space-transfer matrices / fresh multi-level controllers
+    r = res_transfer
+    if 'crash' not in r:
+        seen_tm = 0
+        for ent in r['cfgs']:
+            c = ent['cfg']
+            order = c['iorder']
+            ck.case(key=json.dumps(['transfer', c], sort_keys=True, default=str), nontrivial=True,
+                    sample={'kind': 'fresh-multilevel', 'family': c['family'], 'nvars': c['nvars'], 'order': order, 'fresh_controllers': len(ent['runs'])})
+            ck.traces += len(ent['runs'])
+            inp = {'cfg': c, 't0': transfer['t0'], 'nsteps': transfer['nsteps'], 'scale': transfer['scale'],
+                   'how': '%d controllers, each built from a brand-new description; compare base_transfer.space_transfer.Pspace/Rspace and run() results' % len(ent['runs'])}
+            tm = {'kind': 'fresh-repeat', 'cause': 'transfer-matrix-unseeded-barycentric', 'order': order}
+            if ent['matrix_diffs']:
+                seen_tm += 1
+                d = max(ent['matrix_diffs'], key=lambda x: x.get('max_abs_diff', 0))
+                report('mesh_to_mesh order %d: the space-transfer matrices of two freshly built controllers are not bit-identical (%s: max abs diff %.3g, %d entries)'
+                       % (order, d['matrix'], d.get('max_abs_diff', float('nan')), d.get('n_entries_differ', -1)), tm, {'input': inp, 'matrix_diffs': ent['matrix_diffs'][:6]})
+            for q in range(1, len(ent['runs'])):
+                a, b = ent['runs'][0], ent['runs'][q]
+                if a['error'] or b['error']:
+                    report('run() raised on a fresh multi-level controller: %s' % (a['error'] or b['error']), {'kind': 'crash', 'scenario': 'transfer'}, {'input': inp})
+                    break
+                if not rec_equal(a, b):
+                    differing = [d for d in ent['matrix_diffs'] if d['controllers'] == [0, q]]
+                    if differing:
+                        report('mesh_to_mesh order %d: two fresh controllers built from the same description give different results; their Pspace/Rspace differ '
+                               '(max abs diff %.3g)' % (order, max(d.get('max_abs_diff', 0) for d in differing)), tm,
+                               {'input': inp, 'controllers': [0, q], 'matrix_diffs': differing[:4], 'diff': describe_diff(a, b)})
+                    else:
+                        report('a second, freshly constructed multi-level controller does not reproduce the run bit for bit (transfer matrices identical)',
+                               {'kind': 'fresh-repeat', 'variant': 'multilevel-order-%d' % order}, {'input': inp, 'controllers': [0, q], 'diff': describe_diff(a, b)})
+        for ent in r['helper']:
+            h = ent['call']
+            ck.case(key=json.dumps(['transfer-helper', h], sort_keys=True), nontrivial=True)
+            if ent['diffs']:
+                seen_tm += 1
+                d = max(ent['diffs'], key=lambda x: x.get('max_abs_diff', 0))
+                report('%s(k=%d, %d fine points, periodic=%s) called repeatedly in one process returns matrices that are not bit-identical (max abs diff %.3g)'
+                       % (d['function'], h['k'], h['nfine'], h['periodic'], d.get('max_abs_diff', float('nan'))),
+                       {'kind': 'state', 'cause': 'transfer-matrix-unseeded-barycentric', 'order': h['k']}, {'call': h, 'diffs': ent['diffs'][:6]})
+        ck.cov['transfer_matrix_differences_seen'] = seen_tm
 
     # ------------------------------------------------------------------ LogToPickleFile
     pa, pi = res_pk
